@@ -26,6 +26,9 @@ TOKEN = [
     spec=r'''    ensures r@ == delim_str(*self),''',
     ops=[],
   ),
+  F('<DelimTokenType as From<&str>>::from', props=['C10'], spec='',
+    ops=[Ins('entry', '', '        proof { broadcast use axiom_str_ext; }')],
+  ),
   F('check_op',
     spec=r'''    ensures r == tok_is(token, expected@),''',
     ops=[],
@@ -92,7 +95,8 @@ TOKENIZER = [
         r.is_none() <==> old(self).off() == old(self).len(),
         r.is_some() ==> r.unwrap().0 == old(self).off() && r.unwrap().1 == char_at(old(self).bytes(), old(self).off())
             && old(self).off() + r.unwrap().1.len_utf8() <= old(self).len()
-            && is_char_boundary(old(self).bytes(), old(self).off() + r.unwrap().1.len_utf8()),''',
+            && is_char_boundary(old(self).bytes(), old(self).off() + r.unwrap().1.len_utf8()),
+        r.is_some() ==> (r.unwrap().1.len_utf8() == 1 ==> old(self).bytes()[old(self).off()] == r.unwrap().1 as u8) && (r.unwrap().1.len_utf8() > 1 ==> forall|i: int| old(self).off() <= i < old(self).off() + r.unwrap().1.len_utf8() ==> #[trigger] old(self).bytes()[i] >= 128),''',
     ops=[],
   ),
   F('Tokenizer::current',
@@ -124,37 +128,65 @@ TOKENIZER = [
     ensures final(self).wf(), final(self).inp() == old(self).inp(),
         final(self).cur() == old(self).cur(), final(self).prev() == old(self).prev(),
         old(self).off() <= final(self).off() <= old(self).len(),
-        all_ws(old(self).bytes(), old(self).off(), final(self).off()),''',
+        all_ws(old(self).bytes(), old(self).off(), final(self).off()),
+        final(self).off() < old(self).len() ==> !is_ws_byte(old(self).bytes()[final(self).off()]),  // @C10 whitespace.stops_at_token''',
     ops=[Inv('loop#0', r'''        invariant self.wf(), self.inp() == old(self).inp(),
             self.cur() == old(self).cur(), self.prev() == old(self).prev(),
             old(self).off() <= self.off() <= self.len(),
             all_ws(self.bytes(), old(self).off(), self.off()),
+        ensures self.off() < self.len() ==> !is_ws_byte(self.bytes()[self.off()]),
         decreases self.len() - self.off(),''')],
   ),
   F('Tokenizer::special_op_token',
-    spec=r'''    requires old(self).in_token(start as int),
+    spec=r'''    requires start + 1 == old(self).off(), old(self).in_token(start as int),
     ensures final(self).scan_frame(old(self), start as int),
-        r matches Ok(Token::Operator(s, sp)) && sp == Span(start, final(self).off() as usize) && s.spec_bytes() == final(self).text(start as int, final(self).off()),''',
-    ops=[Inv('loop#0', r'''        invariant self.scan_frame(old(self), start as int),
+        r matches Ok(Token::Operator(s, sp)) && sp == Span(start, final(self).off() as usize) && s.spec_bytes() == final(self).text(start as int, final(self).off()),
+        sym_run(final(self).bytes(), start as int, final(self).off()) && sym_stop(final(self).bytes(), start as int, final(self).off()),  // @C10 class.greedy_operator''',
+    ops=[Ins('loop#0', 'body_start', '            let ghost o0 = self.off(); proof { broadcast use axiom_str_to_string; }'),
+      Ins('call:next_one', 'after', """                        proof {
+                            let b_ = self.bytes(); let a_ = start as int; let e_ = self.off();
+                            assert(e_ == o0 + char_at(b_, o0).len_utf8());
+                            assert(reg_opb(b_.subrange(a_, e_)));
+                            assert(sym_run(b_, a_, o0));
+                            assert(a_ + 1 <= o0 < e_);
+                                                        assert(sym_run(b_, a_, e_));
+                        }"""),
+      Inv('loop#0', r'''        invariant self.scan_frame(old(self), start as int),
+            sym_run(self.bytes(), start as int, self.off()), start + 1 <= self.off(),
+        ensures sym_stop(self.bytes(), start as int, self.off()),
         decreases self.len() - self.off(),''')],
   ),
   F('Tokenizer::try_parse_op',
-    spec=r'''    requires self.in_token(start as int),''',
-    ops=[Inv('loop#0', r'''        invariant tmp.scan_frame(self, start as int),
+    spec=r'''    requires self.in_token(start as int),
+    ensures r == word_is_op(self.bytes(), start as int, self.off()),  // @C10 class.word_operator_probe''',
+    ops=[Ins('tail', 'before', """proof {
+            let e = tmp.off();
+            assert forall|e2: int| self.off() <= e2 <= self.bytes().len() && no_stop_inside(self.bytes(), self.off(), e2) && word_stop(self.bytes(), e2) implies e2 == e by {
+                lemma_word_end_unique(self.bytes(), self.off(), e, e2);
+            }
+        }"""),
+      Inv('loop#0', r'''        invariant tmp.scan_frame(self, start as int), no_stop_inside(self.bytes(), self.off(), tmp.off()), self.off() <= tmp.off(),
+        ensures word_stop(tmp.bytes(), tmp.off()),
         decreases tmp.len() - tmp.off(),''')],
   ),
   F('Tokenizer::operator_token',
     spec=r'''    requires old(self).in_token(start as int),
     ensures final(self).scan_frame(old(self), start as int),
-        r matches Ok(Token::Operator(s, sp)) && sp == Span(start, final(self).off() as usize) && s.spec_bytes() == final(self).text(start as int, final(self).off()),''',
+        r matches Ok(Token::Operator(s, sp)) && sp == Span(start, final(self).off() as usize) && s.spec_bytes() == final(self).text(start as int, final(self).off()),
+        no_stop_inside(final(self).bytes(), old(self).off(), final(self).off()) && word_stop(final(self).bytes(), final(self).off()),  // @C10 class.word_operator''',
     ops=[Inv('loop#0', r'''        invariant self.scan_frame(old(self), start as int),
+            no_stop_inside(self.bytes(), old(self).off(), self.off()),
+        ensures word_stop(self.bytes(), self.off()),
         decreases self.len() - self.off(),''')],
   ),
   F('Tokenizer::parse_var',
     spec=r'''    requires old(self).in_token(start as int),
     ensures final(self).scan_frame(old(self), start as int),
-        r.1 == start, r.0.spec_bytes() == final(self).text(start as int, final(self).off()),''',
+        r.1 == start, r.0.spec_bytes() == final(self).text(start as int, final(self).off()),
+        all_param(final(self).bytes(), old(self).off(), final(self).off()) && (final(self).off() >= final(self).len() || !is_param_b(final(self).bytes()[final(self).off()])),  // @C10 class.identifier_run''',
     ops=[Inv('loop#0', r'''        invariant self.scan_frame(old(self), start as int),
+            all_param(self.bytes(), old(self).off(), self.off()),
+        ensures self.off() >= self.len() || !is_param_b(self.bytes()[self.off()]),
         decreases self.len() - self.off(),''')],
   ),
   F('Tokenizer::peek',
@@ -173,10 +205,13 @@ TOKENIZER = [
     ops=[],
   ),
   F('Tokenizer::delim_token',
-    spec=r'''    requires old(self).in_token(start as int), start + 1 == old(self).off(),
+    spec=r'''    requires is_delim_b(old(self).bytes()[start as int]), old(self).in_token(start as int), start + 1 == old(self).off(),
     ensures *final(self) == *old(self),
-        r matches Ok(Token::Delim(ty, sp)) && sp == Span(start, (start + 1) as usize),''',
-    ops=[],
+        r matches Ok(Token::Delim(ty, sp)) && sp == Span(start, (start + 1) as usize),
+        r matches Ok(Token::Delim(ty, sp)) && ty == delim_of_byte(old(self).bytes()[start as int]),  // @C10 class.delimiter''',
+    ops=[Ins('entry', '', '''        proof { broadcast use axiom_ascii_singleton; reveal_strlit("("); reveal_strlit(")"); reveal_strlit("["); reveal_strlit("]"); reveal_strlit("{"); reveal_strlit("}");
+            assert("("@ =~= seq!['(']); assert(")"@ =~= seq![')']); assert("["@ =~= seq!['[']); assert("]"@ =~= seq![']']); assert("{"@ =~= seq!['{']); assert("}"@ =~= seq!['}']); }'''),
+      ],
   ),
   F('Tokenizer::comma_token',
     spec=r'''    requires old(self).in_token(start as int), start + 1 == old(self).off(),
@@ -191,17 +226,24 @@ TOKENIZER = [
     ops=[],
   ),
   F('Tokenizer::number_token', props=['C01', 'C05', 'C09', 'C10'],
-    spec=r'''    requires old(self).in_token(start as int),
+    spec=r'''    requires is_digit_b(old(self).bytes()[start as int]), start + 1 == old(self).off(), old(self).cur_char.len_utf8() == 1, old(self).bytes()[start as int] == old(self).cur_char as u8, old(self).in_token(start as int),
     ensures final(self).scan_frame(old(self), start as int),
         r matches Ok(t) ==> t matches Token::Number(d, sp) && sp == Span(start, final(self).off() as usize)
-             && dec_parse(final(self).text(start as int, final(self).off())) == Some(d),''',
-    ops=[Inv('loop#0', r'''        invariant self.scan_frame(old(self), start as int),
+             && dec_parse(final(self).text(start as int, final(self).off())) == Some(d),
+        r matches Ok(t) ==> num_run(final(self).bytes(), start as int, final(self).off()) && !num_continues(final(self).bytes(), final(self).off()),  // @C09,C10 class.number_run''',
+    ops=[Ins('loop#0', 'body_start', '            let ghost o0 = self.off();'),
+      Ins('call:next_one', 'after', '                        proof { assert(num_continues(self.bytes(), o0)); assert(self.bytes()[self.off() - 1] >= 128 || self.cur_char.len_utf8() == 1); }'),
+      Inv('loop#0', r'''        invariant self.scan_frame(old(self), start as int),
+            num_run(self.bytes(), start as int, self.off()), start < self.off(),
+            (self.cur_char.len_utf8() == 1 ==> self.bytes()[self.off() - 1] == self.cur_char as u8), (self.cur_char.len_utf8() > 1 ==> self.bytes()[self.off() - 1] >= 128),
+        ensures !num_continues(self.bytes(), self.off()),
         decreases self.len() - self.off(),''')],
   ),
   F('Tokenizer::function_or_reference_token',
     spec=r'''    requires self.in_token(start as int), atom.spec_bytes() == self.text(start as int, self.off()),
     ensures r matches Ok(t) ==> ((t matches Token::Function(s, sp) && sp == Span(start, self.off() as usize) && s == atom)
                               || (t matches Token::Reference(s, sp) && sp == Span(start, self.off() as usize) && s == atom)),
+        r matches Ok(t) ==> (t is Function) == tok_is(tk(self.bytes(), self.off()), "("@),  // @C10 class.function_lookahead
     decreases self.len() - self.off(), 2int,''',
     ops=[],
   ),
@@ -233,9 +275,10 @@ TOKENIZER = [
     ops=[],
   ),
   F('Tokenizer::other_token',
-    spec=r'''    requires old(self).in_token(start as int),
+    spec=r'''    requires other_start(old(self).bytes()[start as int]), start + char_at(old(self).bytes(), start as int).len_utf8() == old(self).off(), old(self).in_token(start as int),
     ensures final(self).scan_frame(old(self), start as int),
         r matches Ok(t) ==> tok_post(final(self).bytes(), start as int, t, final(self).off()),
+        r matches Ok(t) ==> tok_class(final(self).bytes(), t),  // @C10 class.other_token
     decreases old(self).len() - old(self).off(), 3int,''',
     ops=[],
   ),
@@ -250,6 +293,7 @@ TOKENIZER = [
         r is Ok && old(self).synced() && !(old(self).cur() is EOF) ==> final(self).m() < old(self).m(),
         final(self).bytes() == old(self).bytes(),
         r matches Ok(t) ==> t == tk(old(self).bytes(), old(self).off()),   // A7 (assumed below)
+        r matches Ok(t) ==> tok_class(old(self).bytes(), t),  // @C10 class.token
     decreases old(self).len() - old(self).off(), 0int,''',
     ops=[
       Ins('tail', 'before', "proof { assume(self.cur_token == tk(old(self).bytes(), old(self).off())); } // A7: determinism of the scanner"),
